@@ -1533,6 +1533,8 @@ func (d *Driver) walkPost(where string, exp json.RawMessage, act interface{}) {
 	var k string
 	json.Unmarshal(m["k"], &k)
 	switch k {
+	case "any":
+		return // nothing is demanded of this entry
 	case "moved":
 		d.res.PostChecked++
 		v, _ := Untag(m["f"])
